@@ -88,7 +88,7 @@ class Engine:
         s.cells = {}; s.owner = {}; s.allocs = []; s.alloc_starts = []; s.brk = 0x100000
         s.fnaddr = {}; s.addrfn = {}; s.gaddr = {}
         s.solver = z3.Solver(); s.nondet_n = 0; s.trace = []; s.di = 0; s.icount = 0
-        s.vfs = {}; s.files = {}; s.events = 0; s.frozen = False; s.vfs_mtime = {}; s.vfs_clock = 1
+        s.vfs = {}; s.files = {}; s.events = 0; s.frozen = False; s.die_after = None; s.die_base = 0; s.vfs_mtime = {}; s.vfs_clock = 1
         s.model = None; s.nondets = []; s.obs = []; s.reached = []; s.notes = []; s.depth = 0
         s.violations = []; s.clock = 0; s.errno_addr = None; s.asserts_seen = {}
         s.env = {}; s.tty = 0; s.vfs_dirs = set(); s.vfs_id = {}; s.expect_fatal = False
@@ -1157,13 +1157,35 @@ class Engine:
                 if cv == 'p': txt = '0x' + txt
             out += [ord(ch) for ch in spec % txt]
         return out
+    def vfs_event(s):
+        """one persistence event; returns True if the simulated process is dead (nothing persists any more)"""
+        s.events += 1
+        if s.die_after is not None and not s.frozen:
+            da = s.die_after
+            if is_sym(da):
+                if s.branch(z3.ULT(da, s.events - s.die_base)): s.frozen = True       # dies right before this event takes effect
+            elif s.events - s.die_base > da: s.frozen = True
+        return s.frozen
     def vfs_write(s, fh, bs):
+        """stdio output: bytes go to the stream's buffer; they persist (one event, atomically) when the buffer is flushed"""
         f = s.files.get(fh)
         if f is None: raise Violation('memory-safety: write to an invalid FILE* %#x' % fh)
         if f['path'] in ('<stdout>', '<stderr>'): s.vfs[f['path']].extend(bs); return
         if 'w' not in f['mode'] and 'a' not in f['mode'] and '+' not in f['mode']: return
-        s.events += 1
-        if s.frozen: return
+        f['buf'].extend(bs)
+        bm = f.get('bufmode', 'full')
+        if bm == 'none': s.vfs_flush(f)
+        elif bm == 'line':
+            last = -1
+            for i, b in enumerate(f['buf']):
+                if not is_sym(b) and b == 10: last = i
+            if last >= 0: s.vfs_flush(f, last + 1)
+        elif len(f['buf']) > (1 << 19): s.vfs_flush(f)
+    def vfs_flush(s, f, upto=None):
+        if not f.get('buf'): return
+        bs = f['buf'] if upto is None else f['buf'][:upto]
+        f['buf'] = [] if upto is None else f['buf'][upto:]
+        if s.vfs_event(): return
         data = s.vfs[f['path']] if f['path'] in s.vfs and s.vfs_id.get(f['path']) == f['id'] else f.setdefault('orphan', [])
         if f['append']: f['pos'] = len(data)
         if f['pos'] > len(data): data.extend([0] * (f['pos'] - len(data)))
@@ -1176,23 +1198,33 @@ class Engine:
             if mode[0] == 'r' and path not in V: s.set_errno(2); return 0
             if path in s.vfs_dirs: s.set_errno(21); return 0
             if mode[0] != 'r':
-                s.events += 1
+                s.vfs_event()
                 if s.frozen: path = '<frozen:%d>' % s.events; V[path] = []; s.vfs_id[path] = s.events
                 elif mode[0] == 'w' or path not in V:
                     V[path] = []; s.vfs_id[path] = s.events; s.vfs_clock += 1; s.vfs_mtime[path] = s.vfs_clock
             h = s.alloc(16, 'FILE ' + path, zero=True)
-            F[h] = dict(path=path, pos=len(V[path]) if mode[0] == 'a' else 0, append=mode[0] == 'a', eof=False, mode=mode, id=s.vfs_id.get(path))
+            F[h] = dict(path=path, pos=len(V[path]) if mode[0] == 'a' else 0, append=mode[0] == 'a', eof=False, mode=mode, id=s.vfs_id.get(path), buf=[], bufmode='full')
             return h
         if n == 'fclose':
             h = s.concretize(args[0], 64)
             if h not in F: raise Violation('memory-safety: fclose of an invalid FILE* %#x' % h)
-            F.pop(h); s.find_alloc(h)[2] = False; return 0
-        if n in ('fflush', 'setvbuf', 'fsync'): return 0
+            s.vfs_flush(F[h]); F.pop(h); s.find_alloc(h)[2] = False; return 0
+        if n == 'fflush':
+            h = s.concretize(args[0], 64)
+            for f in ([F[h]] if h in F else (list(F.values()) if h == 0 else [])): s.vfs_flush(f)
+            return 0
+        if n == 'setvbuf':
+            f = F.get(s.concretize(args[0], 64))
+            if f is not None: f['bufmode'] = {0: 'full', 1: 'line', 2: 'none'}.get(s.concretize(args[2], 32), 'full')
+            return 0
+        if n == 'fsync': return 0
         if n == 'fileno':
             f = F.get(args[0]); return {'<stdout>': 1, '<stderr>': 2}.get(f['path'], 3) if f else 3
-        if n in ('ftell', 'ftello'): return F[args[0]]['pos']
+        if n in ('ftell', 'ftello'):
+            f = F[args[0]]; s.vfs_flush(f)
+            return len(V.get(f['path'], [])) if f['append'] and 'r' not in f['mode'] else f['pos']
         if n in ('fseek', 'fseeko'):
-            f = F[args[0]]; off = sx(s.concretize(args[1], 64), 64); wh = s.concretize(args[2], 32)
+            f = F[args[0]]; off = sx(s.concretize(args[1], 64), 64); wh = s.concretize(args[2], 32); s.vfs_flush(f)
             f['pos'] = off if wh == 0 else f['pos'] + off if wh == 1 else len(V[f['path']]) + off; f['eof'] = False; return 0
         if n == 'rewind': F[args[0]]['pos'] = 0; F[args[0]]['eof'] = False; return None
         if n == 'feof': return int(F[args[0]]['eof'])
@@ -1254,14 +1286,12 @@ class Engine:
         if n in ('unlink', 'remove'):
             path = s.cstring(args[0])
             if path not in V: s.set_errno(2); return 0xFFFFFFFF
-            s.events += 1
-            if not s.frozen: del V[path]; s.vfs_id.pop(path, None)
+            if not s.vfs_event(): del V[path]; s.vfs_id.pop(path, None)
             return 0
         if n == 'rename':
             a, b = s.cstring(args[0]), s.cstring(args[1])
             if a not in V: s.set_errno(2); return 0xFFFFFFFF
-            s.events += 1
-            if not s.frozen:
+            if not s.vfs_event():
                 V[b] = V.pop(a); s.vfs_id[b] = s.vfs_id.pop(a, None); s.vfs_clock += 1; s.vfs_mtime[b] = s.vfs_mtime.get(a, 0)
                 for f in F.values():
                     if f['path'] == a: f['path'] = b
@@ -1269,15 +1299,13 @@ class Engine:
         if n in ('truncate', 'truncate64'):
             path = s.cstring(args[0]); ln = s.concretize(args[1], 64)
             if path not in V: s.set_errno(2); return 0xFFFFFFFF
-            s.events += 1
-            if not s.frozen:
+            if not s.vfs_event():
                 d = V[path]; d[:] = d[:ln] + [0] * (ln - len(d)); s.vfs_clock += 1; s.vfs_mtime[path] = s.vfs_clock
             return 0
         if n in ('mkdir',):
             path = s.cstring(args[0])
             if path in s.vfs_dirs: s.set_errno(17); return 0xFFFFFFFF
-            s.events += 1
-            if not s.frozen: s.vfs_dirs.add(path)
+            if not s.vfs_event(): s.vfs_dirs.add(path)
             return 0
         if n in ('access',): return 0 if s.cstring(args[0]) in V else 0xFFFFFFFF
         if n in ('chown',): return 0 if s.cstring(args[0]) in V else 0xFFFFFFFF
@@ -1293,7 +1321,14 @@ class Engine:
             return 0
         if n == 'verif_file_size':
             path = s.cstring(args[0]); return len(V[path]) if path in V else 0xFFFFFFFFFFFFFFFF
-        if n == 'verif_vfs_freeze': s.frozen = bool(s.concretize(args[0], 32)); return None
+        if n == 'verif_vfs_freeze':
+            s.frozen = bool(s.concretize(args[0], 32))
+            if not s.frozen: s.die_after = None
+            return None
+        if n == 'verif_vfs_die_after':        # the process dies right after the n-th persistence event from now (n = 0: before the next one)
+            s.die_after = args[0]; s.die_base = s.events; return None
+        if n == 'verif_vfs_event': return int(s.vfs_event())
+        if n == 'verif_vfs_frozen': return int(s.frozen)
         if n == 'verif_vfs_events': return s.events
         if n in ('sscanf', '__isoc99_sscanf'):
             # %d and literal characters only (what ninja uses); symbolic input bytes fork per character class
